@@ -126,7 +126,7 @@ func routingChild(sc Scenario, repo string) {
 		must(os.MkdirAll(filepath.Dir(os.Getenv(k)), 0o755))
 	}
 	must(os.WriteFile(filepath.Join(os.Getenv("LUNAR_PROXY_FLOW_DIRECTORY"), "rl.yaml"), []byte(flowYAML), 0o644))
-	must(os.WriteFile(filepath.Join(os.Getenv("LUNAR_PROXY_QUOTAS_DIRECTORY"), "q.yaml"), []byte(quotaYAML(sc.Max, false)), 0o644))
+	must(os.WriteFile(filepath.Join(os.Getenv("LUNAR_PROXY_QUOTAS_DIRECTORY"), "q.yaml"), []byte(quotaYAML(sc.Max, sc.Concurrent)), 0o644))
 	dm, err := os.ReadFile(filepath.Join(repo, "proxy", "metrics.yaml"))
 	must(err)
 	must(os.WriteFile(os.Getenv("LUNAR_PROXY_METRICS_CONFIG_DEFAULT"), dm, 0o644))
@@ -195,8 +195,12 @@ func routingChild(sc Scenario, repo string) {
 	// transactions keep coming while the admin goroutines work (at least PerG per
 	// goroutine, at most 50 x PerG), so that every reload overlaps with traffic
 	var adminsLeft atomic.Int64
+	reloaders := sc.Reloaders
+	if reloaders < 1 {
+		reloaders = 1
+	}
 	if sc.Reloads > 0 {
-		adminsLeft.Add(1)
+		adminsLeft.Add(int64(reloaders))
 	}
 	if sc.Validates > 0 {
 		adminsLeft.Add(2)
@@ -213,7 +217,7 @@ func routingChild(sc Scenario, repo string) {
 			}
 		}(g)
 	}
-	if sc.Reloads > 0 {
+	for r := 0; sc.Reloads > 0 && r < reloaders; r++ {
 		wg.Add(1)
 		go func() {
 			defer wg.Done()
